@@ -6,7 +6,7 @@
     (C12/Checker.v) are the decidable checkers every run evaluates on the parameters returned by
     the implementation; [tauR tol] = tol (1 + 2^-10).  [rmat], [rvec], [f64_R] give the exact real
     values of the float data. *)
-From Coq Require Import List NArith QArith Reals Floats.
+From Coq Require Import List NArith QArith Reals Floats Permutation.
 From Coquelicot Require Import Coquelicot.
 From LinfaVerif Require Import Common.Num Common.QF C12.Model C12.Checker C12.Proofs.
 Import ListNotations.
@@ -199,3 +199,15 @@ Theorem logistic_convex_optimal : forall alpha (X : list (list R)) (y w : list R
   Rabs (bin_grad_b X y w b) <= tau ->
   bin_loss alpha X y w b - tau * (l1norm (vsub w' w) + Rabs (b' - b)) <= bin_loss alpha X y w' b'.
 Proof. exact logistic_convex_optimal_lemma. Qed.
+
+(** ** The documented objectives are symmetric in the samples: the set of stationary points (and of
+    minimisers) does not depend on the sample order *)
+Theorem objectives_sample_order_invariant : forall (X X' : list (list R)) (y y' : list R),
+  Permutation (combine X y) (combine X' y') ->
+  (forall alpha w b, bin_loss alpha X y w b = bin_loss alpha X' y' w b) /\
+  (forall dev l alpha w b, glm_loss dev l alpha X y w b = glm_loss dev l alpha X' y' w b).
+Proof. intros X X' y y' H. split; intros; apply glin_obj_perm; exact H. Qed.
+
+Theorem multi_objective_sample_order_invariant : forall k alpha (X X' : list (list R)) (y y' : list nat) W b,
+  Permutation (combine X y) (combine X' y') -> multi_loss k alpha X y W b = multi_loss k alpha X' y' W b.
+Proof. intros. apply multi_loss_perm. assumption. Qed.
